@@ -413,6 +413,33 @@ func c13Readers(ev *vlib.Evidence, idx int) {
 	var observations, bad int64
 	var firstBad atomic.Value
 	var wg sync.WaitGroup
+	// a node's own credit is visible at every moment, on its trial balance or inside its wallet
+	own := map[string]*big.Int{}
+	for _, id := range nodes {
+		b, _ := s.GetNodeBalance(store.NodeID(id))
+		own[id] = new(big.Int).Set(&b.Credit)
+	}
+	var balReads, balBad int64
+	var firstBalBad atomic.Value
+	for g := 0; g < 3; g++ {
+		wg.Add(1)
+		go func(g int) {
+			defer wg.Done()
+			for i := g; atomic.LoadInt32(&stop) == 0; i++ {
+				id := nodes[i%len(nodes)]
+				b, err := s.GetNodeBalance(store.NodeID(id))
+				if err != nil {
+					continue
+				}
+				atomic.AddInt64(&balReads, 1)
+				if b.Credit.Cmp(own[id]) < 0 {
+					if atomic.AddInt64(&balBad, 1) == 1 {
+						firstBalBad.Store(fmt.Sprintf("node %s: read account=%q credit=%s, its own credit is %s", id, b.Account, b.Credit.String(), own[id].String()))
+					}
+				}
+			}
+		}(g)
+	}
 	for g := 0; g < 4; g++ {
 		wg.Add(1)
 		go func() {
@@ -439,7 +466,10 @@ func c13Readers(ev *vlib.Evidence, idx int) {
 			defer ww.Done()
 			rr := vlib.Rand(fmt.Sprintf("C13-linker-%d", seed), g)
 			for k := 0; k < 40; k++ {
-				s.AddAccountNode(store.Account(fmt.Sprintf("W%d", rr.Intn(3))), store.NodeID(nodes[rr.Intn(len(nodes))]))
+				// every node always joins the same wallet: moving to another wallet later
+				// legitimately leaves its earlier credit behind, which the readers' invariant excludes
+				ni := rr.Intn(len(nodes))
+				s.AddAccountNode(store.Account(fmt.Sprintf("W%d", ni%3)), store.NodeID(nodes[ni]))
 			}
 		}(g, seed)
 	}
@@ -448,12 +478,76 @@ func c13Readers(ev *vlib.Evidence, idx int) {
 	wg.Wait()
 	ev.Case(fmt.Sprintf("readers idx=%d nodes=%d", idx, nn), observations > 10)
 	ev.Count("reader-observations", observations)
+	ev.Count("reader-balance-observations", balReads)
+	if balBad > 0 {
+		ev.Violate("readers:node-credit-vanished-during-link", map[string]interface{}{"first": firstBalBad.Load(), "bad_reads": balBad, "reads": balReads})
+	}
 	if bad > 0 {
 		ev.Violate("readers:ledger-total-changed-during-link", map[string]interface{}{"expected": total.String(), "first_bad_total": firstBad.Load(), "bad_observations": bad, "observations": observations})
 	}
 	st, _ := s.Stats()
 	if st.TotalCredit.Cmp(total) != 0 {
 		ev.Violate("readers:ledger-total-after-links", map[string]interface{}{"expected": total.String(), "got": st.TotalCredit.String()})
+	}
+}
+
+// c13ContendedAcks: many writers hammer the same keys of an on-disk store;
+// every acknowledged add must be there after close and reopen.
+func c13ContendedAcks(ev *vlib.Evidence, idx int) {
+	r := vlib.Rand("C13-contended", idx)
+	dir, _ := os.MkdirTemp("", "verif-c13c-")
+	defer os.RemoveAll(dir)
+	s, err := badger.Open(vlib.BadgerDiskOptions(dir))
+	if err != nil {
+		ev.Violate("contended:cannot-open", map[string]interface{}{"err": err.Error()})
+		return
+	}
+	node := store.NodeID("hot")
+	s.SetNode(store.Node{ID: node, LastSeen: time.Now()})
+	writers := 8 + r.Intn(17)
+	per := 10 + r.Intn(20)
+	var mu sync.Mutex
+	wantNode, wantAcct := new(big.Int), new(big.Int)
+	acked := 0
+	var wg sync.WaitGroup
+	for g := 0; g < writers; g++ {
+		wg.Add(1)
+		go func(g int) {
+			defer wg.Done()
+			for k := 0; k < per; k++ {
+				d := big.NewInt(int64(1 + g*1000 + k))
+				if (g+k)%2 == 0 {
+					if s.AddNodeBalance(node, d) == nil {
+						mu.Lock()
+						wantNode.Add(wantNode, d)
+						acked++
+						mu.Unlock()
+					}
+				} else {
+					if s.AddAccountBalance("HOT", d) == nil {
+						mu.Lock()
+						wantAcct.Add(wantAcct, d)
+						acked++
+						mu.Unlock()
+					}
+				}
+			}
+		}(g)
+	}
+	wg.Wait()
+	s.Close()
+	s2, err := badger.Open(vlib.BadgerDiskOptions(dir))
+	if err != nil {
+		ev.Violate("contended:cannot-reopen", map[string]interface{}{"err": err.Error()})
+		return
+	}
+	defer s2.Close()
+	nb, _ := s2.GetNodeBalance(node)
+	ab, _ := s2.GetAccountBalance("HOT")
+	ev.Case(fmt.Sprintf("contended writers=%d per=%d idx=%d", writers, per, idx), acked > writers)
+	ev.Count("contended-acknowledged-adds", int64(acked))
+	if nb.Credit.Cmp(wantNode) != 0 || ab.Credit.Cmp(wantAcct) != 0 {
+		ev.Violate("contended:acknowledged-add-missing-after-reopen", map[string]interface{}{"writers": writers, "acknowledged": acked, "node_credit": nb.Credit.String(), "sum_of_acknowledged_node_adds": wantNode.String(), "account_credit": ab.Credit.String(), "sum_of_acknowledged_account_adds": wantAcct.String()})
 	}
 }
 
@@ -647,7 +741,7 @@ func diffMaps(a, b map[string]string, ignore func(string) bool) []string {
 
 func TestC13(t *testing.T) {
 	ev := vlib.NewEvidence("C13", "fault_enumeration",
-		"(1) model-checked store histories on an on-disk badger store opened exactly like pool.go (DefaultOptions(dir)) with Close/Open inserted every 1-3 operations; (2) kill cycles: a child process runs a seeded 30-operation stream (nodes, balances, links, peers, nonces) logging start/ack of every operation and is SIGKILLed after a PRNG-chosen number of acknowledgements plus a sub-millisecond delay; the directory is reopened and the full observable state (nodes, balances, links, peers, stats, replay of accepted nonces) must equal the model after the acknowledged prefix, or prefix+1 when an operation was in flight; thorough: kill points enumerated at value-log write boundaries with strace fault injection; (3) readers polling Stats while link operations migrate trial balances must always see the same ledger total; (4) format matrix: databases rewritten to version 0/1/current/current+1 with planted nonce keys must migrate to current with every data key byte-identical, refuse and not touch a newer format, and not change on reopen; non-trivial = kill after >=1 acknowledged operation / history with >=1 reopen; distinct = case descriptors")
+		"(1) model-checked store histories on an on-disk badger store opened exactly like pool.go (DefaultOptions(dir)) with Close/Open inserted every 1-3 operations; (2) kill cycles: a child process runs a seeded 30-operation stream (nodes, balances, links, peers, nonces) logging start/ack of every operation and is SIGKILLed after a PRNG-chosen number of acknowledgements plus a sub-millisecond delay; the directory is reopened and the full observable state (nodes, balances, links, peers, stats, replay of accepted nonces) must equal the model after the acknowledged prefix, or prefix+1 when an operation was in flight; thorough: kill points enumerated at value-log write boundaries with strace fault injection; (3) readers polling Stats and node balances while link operations migrate trial balances must always see the same ledger total and never less than a node's own credit; (3b) 8-24 writers hammering one node and one wallet balance of an on-disk store: every acknowledged add is present after close/reopen; (4) format matrix: databases rewritten to version 0/1/current/current+1 with planted nonce keys must migrate to current with every data key byte-identical, refuse and not touch a newer format, and not change on reopen; non-trivial = kill after >=1 acknowledged operation / history with >=1 reopen; distinct = case descriptors")
 	ev.Assume("only process kill can be produced here, not power loss; kills are armed after Open returned")
 	for i := 0; i < vlib.Scale(25, 400); i++ {
 		c13ReopenHistory(ev, i)
@@ -659,6 +753,7 @@ func TestC13(t *testing.T) {
 		}
 	}
 	parallelCases(vlib.Scale(8, 100), 4, func(i int) { c13Readers(ev, i) })
+	parallelCases(vlib.Scale(6, 100), 3, func(i int) { c13ContendedAcks(ev, i) })
 	for i := 0; i < vlib.Scale(4, 40); i++ {
 		c13Migration(ev, i)
 	}
